@@ -10,11 +10,14 @@ From stdpp Require Import gmap list numbers.
 From Coq Require Import ZArith NArith.
 From Verif Require Import Addr.MemDisk Generated.AddrCache.
 
-(** The model parameter takes the value the source has now. *)
-Definition rb : bool := next_caches_read_back.
+(** The model parameters take the values the source has now. *)
+Definition P_now : params :=
+  {| p_rb := next_caches_read_back; p_ee := extend_updates_memory_eagerly;
+     p_re := rename_updates_memory_eagerly |}.
 
 Record txobs := {
-  to_outs : list ans;     (* per operation, as the implementation returned *)
+  to_outs : list (option ans);  (* per operation, as the implementation returned; None: an outcome the
+                                   wallet API that ran the operation does not show to its caller *)
   to_run : list ans;      (* running manager, per boundary query *)
   to_fresh : list ans;    (* freshly opened manager, per boundary query *)
 }.
@@ -31,6 +34,21 @@ Record tcase := {
 
 Definition ans_list_eqb (a b : list ans) : bool := bool_decide (a = b).
 
+(** The outcome of an operation agrees with the model's when it is the same, or
+    when both are errors and the implementation's is one whose guard fires in
+    the model's state too ([alts]: the order of two failing guards is not
+    something a theorem depends on). *)
+Definition ans_agree (x y : ans) (a : list err) : bool :=
+  bool_decide (x = y) ||
+  match x, y with AErr _, AErr e => bool_decide (e ∈ a) | _, _ => false end.
+Fixpoint outs_agree (mo : list ans) (im : list (option ans)) (al : list (list err)) : bool :=
+  match mo, im, al with
+  | [], [], _ => true
+  | x :: mo', y :: im', a :: al' =>
+      match y with Some y' => ans_agree x y' a | None => true end && outs_agree mo' im' al'
+  | _, _, _ => false
+  end.
+
 (** Failure codes:
     1 outcome of an operation differs from the model
     2 running manager's answers differ from the model's memory
@@ -42,10 +60,12 @@ Fixpoint check_txs (i : nat) (pre_k : bool) (l : list (txn * txobs)) (s : state)
   match l with
   | [] => []
   | (x, o) :: r =>
-      let '(s1, (outs, qa)) := run_tx rb x s in
-      let fresh := (run_queries (tx_queries x) (disk_of s1) (reopen (disk_of s1))).2 in
-      let k := pre_k || tx_k rb x in
-      (if ans_list_eqb outs (to_outs o) then [] else [(i, 1%nat)]) ++
+      let al := ops_alts P_now (tx_ops x) (begin_tx s) in
+      let '(s1, (outs, qa)) := run_tx P_now x s in
+      (* the restarted manager is brought to the lock state of the running one *)
+      let fresh := (run_queries (tx_queries x) (disk_of s1) (restart (mem_of s1) (disk_of s1))).2 in
+      let k := pre_k || tx_k P_now x in
+      (if outs_agree outs (to_outs o) al then [] else [(i, 1%nat)]) ++
       (if ans_list_eqb qa (to_run o) then [] else [(i, 2%nat)]) ++
       (if ans_list_eqb fresh (to_fresh o) then [] else [(i, 3%nat)]) ++
       (if k || ans_list_eqb (to_run o) (to_fresh o) then [] else [(i, 4%nat)]) ++
@@ -56,7 +76,7 @@ Definition case_failures (c : tcase) : list (nat * nat) :=
   let d0 := created (tc_schema c) 0 (tc_genesis_time c) (tc_birthday c) in
   let s0 := opened d0 in
   let '(m0, qa0) := run_queries (tc_q0 c) (disk_of s0) (mem_of s0) in
-  (* the running manager was just opened: both columns are [reopen d0] *)
+  (* the running manager was just opened: both columns are [reopen_as false d0] *)
   (if ans_list_eqb qa0 (tc_q0_run c) then [] else [(0%nat, 2%nat)]) ++
   (if ans_list_eqb qa0 (tc_q0_fresh c) then [] else [(0%nat, 3%nat)]) ++
   (if times_ok (map fst (tc_txs c)) then [] else [(0%nat, 5%nat)]) ++
@@ -87,7 +107,7 @@ Fixpoint model_divergences (i : nat) (l : list txn) (s : state) : list nat :=
   match l with
   | [] => []
   | x :: r =>
-      let '(s1, (_, qa)) := run_tx rb x s in
-      let fresh := (run_queries (tx_queries x) (disk_of s1) (reopen (disk_of s1))).2 in
+      let '(s1, (_, qa)) := run_tx P_now x s in
+      let fresh := (run_queries (tx_queries x) (disk_of s1) (restart (mem_of s1) (disk_of s1))).2 in
       (if ans_list_eqb qa fresh then [] else [i]) ++ model_divergences (S i) r s1
   end.
